@@ -22,7 +22,6 @@ ExtOnly == {"acute", "tone"}            \* Grapheme_Extend (combining acute, emo
 ExtZ    == ExtOnly \cup {"zwj"}
 Pict    == {"wave"}                     \* Extended_Pictographic
 Spaces  == {" ", "LF", "CR", "TAB"}
-Digits  == <<"0", "1", "2", "3", "4", "5", "6", "7", "8", "9">>
 Lowers  == <<"a", "b", "c", "d", "e", "f", "h", "m", "n", "s", "t", "u", "x", "z">>
 Uppers  == <<"A", "B", "C", "D", "E", "F", "H", "M", "N", "S", "T", "U", "X", "Z">>
 IdxIn(c, S) == IF \E i \in 1..Len(S) : S[i] = c THEN CHOOSE i \in 1..Len(S) : S[i] = c ELSE 0
@@ -87,13 +86,6 @@ CharSet(s) == {s[i] : i \in 1..Len(s)}
 (***************************************************************************)
 (* Numbers <-> text                                                        *)
 (***************************************************************************)
-RECURSIVE NatDigits(_)
-NatDigits(n) == IF n < 10 THEN <<Digits[n + 1]>> ELSE NatDigits(n \div 10) \o <<Digits[(n % 10) + 1]>>
-IntText(k) == IF k < 0 THEN <<"-">> \o NatDigits(-k) ELSE NatDigits(k)
-\* shortest decimal text of a quarter-lattice number of magnitude < 10^6 (as %v and JSON write it)
-QText(q) == LET m == AbsI(q) fr == m % 4 IN
-  (IF q < 0 THEN <<"-">> ELSE <<>>) \o NatDigits(m \div 4)
-  \o (CASE fr = 0 -> <<>> [] fr = 1 -> <<".", "2", "5">> [] fr = 2 -> <<".", "5">> [] fr = 3 -> <<".", "7", "5">>)
 PlainQ(n) == Has(n, "q") /\ AbsI(n.q) < 4000000
 LetterVals == <<10, 11, 12, 13, 14, 15, 17, 22, 23, 28, 29, 30, 33, 35>>       \* digit values of Lowers in bases up to 36
 DigitVal(c) == IF IsDigitC(c) THEN IdxIn(c, Digits) - 1
@@ -222,11 +214,12 @@ CsvRef(s) ==
   IF ls = <<>> THEN REJ
   ELSE LET hdr == SplitBy(ls[1], <<",">>) IN
        IF \E i, j \in 1..Len(hdr) : i < j /\ hdr[i] = hdr[j] THEN REJ
-       ELSE IF \E i \in 1..Len(hdr) : Len(hdr[i]) # 1 \/ KeyRank(hdr[i][1]) > 3 THEN UNDEF      \* attribute names of the universe
+       ELSE IF \E i \in 1..Len(hdr) : hdr[i] = <<>> \/ \E j \in 1..Len(hdr[i]) : hdr[i][j] \notin {"a", "b", "c", " "} THEN UNDEF      \* attribute names the projection can spell
        ELSE IF \E r \in 2..Len(ls) : Len(SplitBy(ls[r], <<",">>)) # Len(hdr) THEN REJ
-       ELSE LET names == {hdr[i][1] : i \in 1..Len(hdr)}
+       ELSE LET nm(i) == JoinStr(hdr[i])
+                names == {nm(i) : i \in 1..Len(hdr)}
                 oty == TObj([n \in names |-> TStr])
-                col(n) == CHOOSE i \in 1..Len(hdr) : hdr[i][1] = n IN
+                col(n) == CHOOSE i \in 1..Len(hdr) : nm(i) = n IN
             OKV(SeqV(TList(oty), [r \in 1..(Len(ls) - 1) |-> MapV(oty, [n \in names |-> StrV(SplitBy(ls[r + 1], <<",">>)[col(n)])])]))
 
 (***************************************************************************)
